@@ -3,6 +3,8 @@
 package main
 
 import (
+	"crawshaw.io/sqlite"
+	"crawshaw.io/sqlite/sqlitex"
 	"bytes"
 	"compress/gzip"
 	"sort"
@@ -621,8 +623,15 @@ func runScenario(d *driver, kind string) {
 		d.submitSome(li, 3) // resubmissions answered from the cache are likely
 		d.round(li)
 		d.round(li)
-		// lose the cache: restart with a fresh one; duplicates may be sequenced again, never a wrong answer
-		if li2 := d.restart(li, d.r.Intn(2) == 0); li2 != nil {
+		// lose the cache: restart with a fresh one, or with the old file rolled back to an earlier
+		// state (a restored backup: only the first rows are left); duplicates may be sequenced again,
+		// never a wrong answer
+		keepFile := d.r.Intn(2) == 0
+		if keepFile && d.r.Intn(2) == 0 {
+			d.kill(li)
+			d.rollbackCache(li)
+		}
+		if li2 := d.restart(li, keepFile); li2 != nil {
 			for _, e := range d.recent {
 				if d.r.Intn(2) == 0 {
 					d.submit(li2, e, false)
@@ -946,4 +955,29 @@ func (d *driver) stop(li *logInst) {
 	d.w.logf(nil, "ev|stop|%d|cancel", li.in.id)
 	d.w.mu.Unlock()
 	d.sync()
+}
+
+// rollbackCache: the cache file of a dead instance loses all but its first rows (rows are inserted in
+// index order as long as recompute-cache has not touched the file, so "the first k rows" is a
+// prefix in the model's insertion order as well)
+func (d *driver) rollbackCache(li *logInst) {
+	rows, err := readCacheRows(li.cache)
+	if err != nil || len(rows) == 0 {
+		return
+	}
+	keep := d.r.Intn(len(rows) + 1)
+	conn, err := sqlite.OpenConn(li.cache, 0)
+	if err != nil {
+		panic(err)
+	}
+	defer conn.Close()
+	if keep < len(rows) {
+		if err := sqlitex.Exec(conn, "DELETE FROM cache256 WHERE leaf_index >= ?", nil, rows[keep].idx); err != nil {
+			panic(err)
+		}
+	}
+	d.w.mu.Lock()
+	d.w.logf(nil, "ev|cachedrop|%d|%d", li.in.id, keep)
+	d.w.mu.Unlock()
+	d.stats["cache-rollback"]++
 }
